@@ -114,6 +114,61 @@ def routing_setitem(key_is_str: bool, ki: int, as_dict: bool) -> None:
     hlib.done()
 
 
+def routing_rhs(nch: int, r0: bool) -> None:
+    """
+    pre: 1 <= nch <= 2
+    post: True
+    """
+    # name assignment / compound assignment whose right-hand side is a REAL node of each kind (list and dict
+    # literals, calls, conditionals, ...): whatever that node evaluates to, its tagged deep copy is what is stored
+    hlib.enter(locals())
+    kind, op, target = hlib.PARAM["kind"], hlib.PARAM["op"], hlib.PARAM["target"]
+    from sqv.nodes import Tok as NT
+    saved = ast_ops.copy
+    ast_ops.copy = _CopyStub
+    _CopyStub.calls = []
+    try:
+        log = []
+        s1, s2 = [Sentinel()], [Sentinel()]
+        rhs, stubs = build(kind, op, log, [s1 if r0 else NT(True), s2, s1, s2], nch, -1, value=s1)
+        got = []
+        real_eval = rhs.eval
+
+        def capture(state):
+            v = real_eval(state)
+            got.append(v)
+            return v
+        rhs.eval = capture                      # instance attribute: type(rhs) stays the real node class
+        rec = Rec()
+        host = {'x': rec}
+        if kind == 'NameOp':
+            host = {'x': s1}
+        if kind == 'CallOp':
+            host['x'] = lambda *a: list(a)
+            host['y'] = rec
+        st = mkstate(0, 1000, host=host, functions={'list': lambda *a: [*a], 'dict': dict})
+        tname = 'y' if kind == 'CallOp' else 'x'
+        node = ast_ops.AssignOp(tname, rhs) if target == 'assign' else ast_ops.ShortOp(tname, '+=', rhs)
+        try:
+            node.eval(st)
+        except Exception:
+            hlib.done()
+            return
+        if not got:
+            hlib.done()
+            return
+        if target == 'assign':
+            v = st.names.scopes[-1][tname]
+            assert isinstance(v, Wrapped) and v.inner is got[0], \
+                "name assignment with a %s right-hand side stores the evaluated object itself, not a deep copy" % kind
+        elif tname in host and host[tname] is rec:
+            assert len(rec.got) == 1 and isinstance(rec.got[0], Wrapped) and rec.got[0].inner is got[0], \
+                "compound assignment with a %s right-hand side combines with the evaluated object itself" % kind
+    finally:
+        ast_ops.copy = saved
+    hlib.done()
+
+
 # effect templates: (text, which host objects must be unchanged afterwards)
 EFFECT = [
     "x = a\nx[i].push(w)\nx[i][j] = w\nx | push([w])",
@@ -124,6 +179,13 @@ EFFECT = [
     "e['n'] = d\ne['n']['p'].push(w)",
     "x = a\ny = x\ny[i].push(w)\ny[i][j] = w\nx == a",
     "x = a\nf = v => v\ny = f(x)\ny",
+    "x = [a, a]\nx[0][i].push(w)\nx[1][i][j] = w",
+    "x = {'p': a, 'q': d}\nx['p'][i].push(w)\nx['q']['p'].push(w)",
+    "x = list(a, d)\nx[0][i].push(w)\nx[1]['p'].push(w)",
+    "c[k] = [a, d]\nc[k][0][i].push(w)\nc[k][1]['q'] = w",
+    "x = [w]\nx += [a]\nx[1][i].push(w)",
+    "c[k] = [w]\nc[k] += [a, d]\nc[k][1][i].push(w)\nc[k][2]['p'].push(w)",
+    "x = a if w == w else a\nx[i].push(w)",
 ]
 if isinstance(hlib.PARAM, dict) and "t" in hlib.PARAM:
     prewarm(EFFECT[hlib.PARAM["t"]])
